@@ -317,7 +317,8 @@ def run(facts, rep, ctx):
     # a table read written as (0..257).map(..).collect()
     mapped = sorted(x[4][1][1] for bb, t in rd.calls() if (callee_names(t)[0] or "").endswith("Iterator::map") for x in walk(rd.term_of_operand(t["args"][0]))
                     if x[0] == "agg" and x[2] and x[2].endswith("ops::Range") and len(x[4]) == 2 and x[4][0][:2] == ("const", 0) and x[4][1][0] == "const")
-    rb = sorted(rb + mapped)
+    # (in the analysis view such a pipeline is already a loop: count it once)
+    rb = sorted(rb + [m_ for m_ in mapped if m_ not in rb])
     has_resize32 = fill32 or any((callee_names(t)[1] or "").endswith("Vec::<T, A>::resize") and (affine(rd.term_of_operand(t["args"][1]), None) or (None, None))[1] == 32 for bb, t in rd.calls() if len(t["args"]) == 3)
     if rb == [8, 32, 32, 257] or (rb == [8, 32, 257] and has_resize32):
         rep.ok(R1, {"reader_loops": rb})
